@@ -1335,9 +1335,10 @@ func runSender(prop string, tr *Trace, sc *Script, rec *Recorder, scratch string
 			}
 			rec.Step("cs")
 		case "failsave":
-			// the Agglayer accepts the certificate and the node's attempt to record it fails at its k-th statement: at
-			// that instant the durable certificate tables still are what they were before the attempt ("a failed write
-			// leaves the previous record intact"); the node's retry of the write then goes through
+			// the Agglayer accepts the certificate and the k-th statement the node then runs on its database fails
+			// (mostly inside its attempt to record the certificate): at that instant no record that existed before has
+			// vanished from the durable tables ("a failed write leaves the previous record intact"); the node's retry
+			// of the write then goes through
 			var p *parkedCall
 			for _, q := range s.w.Parked() {
 				if q.method == "SubmitCertificate" {
@@ -1365,15 +1366,24 @@ func runSender(prop string, tr *Trace, sc *Script, rec *Recorder, scratch string
 					return // the tables cannot be read at this instant (locked): not judged
 				}
 				rec.Stats.Inc("failed_writes_judged_at_the_failing_statement")
-				if js(now) != js(before) || js(nowH) != js(beforeH) {
-					s.fail("storage", "c13/failed-write-changed-record", "recording the accepted certificate failed at its statement %d; at that instant the durable certificate tables already differ from what they held before the attempt: %d/%d rows (history %d/%d)", k, len(now), len(before), len(nowH), len(beforeH))
+				// Which operation the failing statement belongs to is not visible from here (after recording the
+				// certificate the node may go straight on to a status check): what every operation guarantees is
+				// judged - a height that had a record still has one (a record is replaced, never removed first)
+				has := map[uint64]bool{}
+				for _, r := range now {
+					has[r.Height] = true
 				}
+				for _, r := range before {
+					if !has[r.Height] {
+						s.fail("storage", "c13/failed-write-changed-record", "a write of the node failed at statement %d after the certificate was accepted; at that instant the durable record of height %d (certificate %s) is gone although nothing has replaced it", k, r.Height, r.ID.Hex()[:12])
+					}
+				}
+				_, _ = nowH, beforeH
 			}
 			ArmFault(s.dbPath, plan)
 			s.faultArmed = true
 			s.w.Release(p, replyOK)
-			// what the node does before it blocks again is its first attempt to record the certificate; a statement
-			// counted later belongs to something else and is not judged by this rule
+			// only statements the node runs before it blocks again are judged
 			inStep = false
 			if plan.Fired == 0 {
 				DisarmFault(s.dbPath)
